@@ -867,6 +867,43 @@ func (e *Engine) Verify(fn *ssa.Function, c *Contract) *FuncResult {
 			}
 		}
 	}()
+	// clauses addressed by ordinal must address something: a `call k invariant` whose k-th call
+	// is not a callback iteration, or a `loop k ...` beyond the function's loops, would be
+	// ignored in silence (and whatever it was meant to carry would be missing or vacuous)
+	if c != nil {
+		for k := range c.CallInvs {
+			ok := false
+			for _, b := range fn.Blocks {
+				for _, ins := range b.Instrs {
+					ci, isCall := ins.(ssa.CallInstruction)
+					if !isCall || e.ordinal(fn, ins, "call") != fmt.Sprintf("call@%d", k) {
+						continue
+					}
+					var cc *Contract
+					if callee := ci.Common().StaticCallee(); callee != nil {
+						cc = e.fnContract[callee]
+					} else if ci.Common().IsInvoke() {
+						cc = e.methContract[ci.Common().Method]
+					}
+					if cc != nil && len(cc.Iterates) > 0 {
+						ok = true
+					}
+				}
+			}
+			if !ok {
+				res.Errors = append(res.Errors, fmt.Sprintf("contract has `call %d invariant` but call #%d of %s is not a call that iterates a callback", k, k, fnKey(fn)))
+			}
+		}
+		nLoops := len(e.loops(fn).headers)
+		for k := range c.Loops {
+			if k < 1 || k > nLoops {
+				res.Errors = append(res.Errors, fmt.Sprintf("contract has clauses for loop %d but %s has %d loop(s)", k, fnKey(fn), nLoops))
+			}
+		}
+		if len(res.Errors) > 0 {
+			return res
+		}
+	}
 	st := &State{eng: e, res: res, heap: &Heap{m: map[string]string{}, sorts: map[string]Sort{}}, cellVals: map[*Cell]Value{}, entryVars: map[string]Value{}}
 	st.allocTop = st.fresh("top0", SInt)
 	st.allocTop0 = st.allocTop
